@@ -18,7 +18,7 @@ PROPERTY = "C02"
 RULE = ("combi: (d in 1..3 (4 thorough), 1<=lmin, lmax=lmin+0..3, box [a,b] per dimension from integers / dyadics / non-dyadic "
         "floats / narrow boxes far from the origin, TrapezoidalGrid boundary on|off, operation Integration|Interpolation, "
         "integrator default|'old', a permutation of the observation blocks integrate / points / call / interpolate_grid / "
-        "points-and-weights). The integrand is one vector-valued FunctionCustom = [smooth driver, pseudo-random table on "
+        "points-and-weights, optionally after the same objects have been used for another (lmin,lmax)). The integrand is one vector-valued FunctionCustom = [smooth driver, pseudo-random table on "
         "the grid points, 3 nodal unit functions, up to 8 random hierarchical hat functions of the scheme's space (biased "
         "to the deepest admissible levels), one random combination of up to 300 basis functions of the space]. Sizes are "
         "limited by construction through a budget on the total number of component-grid points. Non-trivial = d>=2 and "
@@ -206,11 +206,16 @@ class Model:
     def deep_function_present(self):
         return any(sum(max(k, self.lmin) for k, i in fn) > self.dim * self.lmin for fn in self.sel)
 
-    def sparse_grid_interpolant(self, pts):
-        """values at pts of the sparse-grid interpolants of the arbitrary components; also their integrals"""
+    def sparse_grid_interpolant(self, pts, zero_if=None, all_components=False):
+        """values at pts of the sparse-grid interpolants of the arbitrary (or all) components, and their integrals;
+        zero_if(x) -> True replaces the nodal value at x by 0 (used only to classify the cause of a deviation)"""
         ball = Basis(self.allfn, self.a, self.b)
         nodes = [to_coord(t, self.a, self.b) for t in ball.nodes()]
-        G = self.values(nodes)[:, :self.n_arb]
+        G = self.values(nodes)[:, :(self.ncomp if all_components else self.n_arb)].copy()
+        if zero_if is not None:
+            for i, x in enumerate(nodes):
+                if zero_if(x):
+                    G[i, :] = 0.0
         S = hierarchise(ball, G)
         return ball.at_points(pts) @ S, ball.integrals() @ S
 
@@ -301,7 +306,16 @@ def _first_bad(err, tol):
 
 
 def _cause_names(model, cols):
-    return "+".join(sorted(set(model.names[c] for c in cols)))
+    """coarse cause from the set of deviating components: arbitrary functions -> 'any-function'; space functions ->
+    whether only basis functions with a boundary (level 0) factor deviate"""
+    na = model.n_arb
+    single = [c - na for c in cols if na <= c < na + model.n_sel]
+    if all(c < na for c in cols):
+        return "any-function"
+    passing_interior = [j for j in range(model.n_sel) if (na + j) not in cols and all(k > 0 for k, i in model.sel[j])]
+    if single and passing_interior and all(any(k == 0 for k, i in model.sel[j]) for j in single):
+        return "only-functions-with-a-boundary-factor"
+    return "general"
 
 
 def run_combi(case, corrupt=None):
@@ -336,6 +350,11 @@ def run_combi(case, corrupt=None):
 
     obs = {}
     with drive.quiet():
+        if case.get("warmup"):
+            # the same objects were used for another scheme before (as the repository's tests do): nothing may be left over
+            w0, w1 = case["warmup"]
+            sc.perform_operation(w0, w1)
+            sc(R[:2])
         if order[0] != "integrate":
             sc.set_combi_parameters(lmin, lmax)
         for blk in order:
@@ -357,18 +376,16 @@ def run_combi(case, corrupt=None):
 
     ncomp, na = model.ncomp, model.n_arb
     scale = model.scale
+    off = R + cross                       # points that are not (necessarily) sparse-grid points
     truthP = model.values(P)
-    sgi_ok = 0 < len(model.allfn) <= case.get("sgi_cap", 1600)
+    truthC = model.values(cross)
+    arb_scale = np.maximum(1.0, np.max(np.abs(truthP[:nS, :na]), axis=0))
+    full_scale = np.concatenate([arb_scale, scale[na:]])
+    sgi_ok = len(model.allfn) <= case.get("sgi_cap", 1600)
     if sgi_ok:
-        sgiR, sgi_int = model.sparse_grid_interpolant(R + cross)
-        arb_scale = np.maximum(1.0, np.max(np.abs(truthP[:nS, :na]), axis=0)) if nS else np.ones(na)
-    elif not model.allfn:
-        # empty space (boundary off is impossible here since lmin>=1 gives >=1 interior point) - keep for safety
-        sgiR, sgi_int = np.zeros((len(R) + len(cross), na)), np.zeros(na)
-        arb_scale = np.ones(na)
+        sgi_off, sgi_int = model.sparse_grid_interpolant(off)
     else:
-        sgiR = sgi_int = None
-        arb_scale = np.maximum(1.0, np.max(np.abs(truthP[:nS, :na]), axis=0))
+        sgi_off = sgi_int = None
         out.cls("sgi-oracle-skipped(size)")
 
     # ---- clause 1: integrals of space functions
@@ -386,7 +403,7 @@ def run_combi(case, corrupt=None):
                     "%d of %d space functions; e.g. component %d (%s %s): combi %.15g exact %.15g rel.err %.3e  (d=%d lmin=%d lmax=%d boundary=%s a=%s b=%s)" % (
                         len(badc), ncomp - na, c, model.names[c], fn, res[c], model.exact_space[c - na], err[c - na], dim, lmin, lmax, model.boundary, a, b))
         if sgi_int is not None:
-            erra = np.abs(res[:na] - sgi_int) / (model.vol * arb_scale)
+            erra = np.abs(res[:na] - sgi_int[:na]) / (model.vol * arb_scale)
             info["err_integral_arbitrary"] = float(np.max(erra)) / model.cond
             badc = [int(i) for i in np.argwhere(~(erra <= tol)).reshape(-1)]
             if badc:
@@ -411,79 +428,90 @@ def run_combi(case, corrupt=None):
                     "sum_i w_i f(p_i) over get_points_and_weights(): component %d (%s): %.15g exact %.15g (d=%d lmin=%d lmax=%d boundary=%s)" % (
                         c, model.names[c], q[c], model.exact_space[c - na], dim, lmin, lmax, model.boundary))
         # ... and is the rule that perform_operation applied
-        errq = np.abs(q - res) / (model.vol * np.concatenate([arb_scale, scale[na:]])) if res.shape == (ncomp,) else np.zeros(1)
-        if np.any(~(errq <= tol)):
-            c = int(np.argwhere(~(errq <= tol))[0][0])
-            out.bad(sub + "/points-and-weights/differs-from-perform-operation", "component %d (%s): %.15g vs %.15g" % (c, model.names[c], q[c], res[c]))
+        if res.shape == (ncomp,):
+            errq = np.abs(q - res) / (model.vol * full_scale)
+            if np.any(~(errq <= tol)):
+                c = int(np.argwhere(~(errq <= tol))[0][0])
+                out.bad(sub + "/points-and-weights/differs-from-perform-operation", "component %d (%s): %.15g vs %.15g" % (c, model.names[c], q[c], res[c]))
 
-    # ---- clause 2: interpolation through __call__
-    vals = obs["call"]
+    # ---- clauses 2 and 6: interpolation through __call__ and interpolate_grid
+    vals, ig, ic = obs["call"], obs["igrid"], obs["igrid_call"]
     if vals.shape != (len(P), ncomp):
         out.bad(sub + "/call/result-shape", "shape %s for %d points and %d components" % (vals.shape, len(P), ncomp))
-    else:
-        full_scale = np.concatenate([arb_scale, scale[na:]])
-        E = np.abs(vals - truthP) / full_scale[None, :]
-        # (a) arbitrary functions at every sparse-grid point
-        if nS:
-            Ea = E[:nS, :na]
-            info["err_gridpoints"] = float(np.max(Ea)) / model.cond
-            fb = _first_bad(Ea, tol)
-            if fb:
-                cols = sorted(set(int(c) for r, c in np.argwhere(~(Ea <= tol))))
-                out.bad(sub + "/call/arbitrary-function-not-reproduced-at-sparse-grid-point/" + _cause_names(model, cols),
-                        "%d of %d sparse-grid points; e.g. point %s (relative %s) component %d (%s): combi %.15g function %.15g  (d=%d lmin=%d lmax=%d boundary=%s)" % (
-                            len(set(int(r) for r, c in np.argwhere(~(Ea <= tol)))), nS, P[fb[0]], [i / n for i, n in model.sparse[fb[0]]], fb[1],
-                            model.names[fb[1]], vals[fb], truthP[fb], dim, lmin, lmax, model.boundary))
-        # (b) space functions everywhere
-        Es = E[:, na:]
-        info["err_space_interp"] = float(np.max(Es)) / model.cond
-        fb = _first_bad(Es, tol)
-        if fb:
-            cols = sorted(set(na + int(c) for r, c in np.argwhere(~(Es <= tol))))
-            where = "sparse-grid point" if fb[0] < nS else "off-grid point"
-            out.bad(sub + "/call/space-function-not-interpolated-exactly/" + _cause_names(model, cols),
-                    "%s %s component %d (%s %s): combi %.15g function %.15g  (d=%d lmin=%d lmax=%d boundary=%s a=%s b=%s)" % (
-                        where, P[fb[0]], na + fb[1], model.names[na + fb[1]], (model.sel + [None])[fb[1]], vals[fb[0], na + fb[1]],
-                        truthP[fb[0], na + fb[1]], dim, lmin, lmax, model.boundary, a, b))
-        # (c) arbitrary functions off the grid: the sparse-grid interpolant
-        if sgiR is not None:
-            Eo = np.abs(vals[nS:, :na] - sgiR[:len(R)]) / arb_scale[None, :]
-            info["err_sgi"] = float(np.max(Eo)) / model.cond
-            fb = _first_bad(Eo, tol)
-            if fb:
-                cols = sorted(set(int(c) for r, c in np.argwhere(~(Eo <= tol))))
-                onb = any(R[fb[0]][d] in (a[d], b[d]) for d in range(dim))
-                out.bad(sub + "/call/differs-from-sparse-grid-interpolant/%s/%s" % ("on-boundary" if onb else "interior", _cause_names(model, cols)),
-                        "point %s component %d (%s): combi %.15g sparse-grid interpolant %.15g  (d=%d lmin=%d lmax=%d boundary=%s)" % (
-                            R[fb[0]], fb[1], model.names[fb[1]], vals[nS + fb[0], fb[1]], sgiR[fb[0], fb[1]], dim, lmin, lmax, model.boundary))
-
-    # ---- clause 6: interpolate_grid == __call__ on the cross product (and both are right)
-    ig, ic = obs["igrid"], obs["igrid_call"]
-    if ig.shape != (len(cross), ncomp) or ic.shape != ig.shape:
+    elif ig.shape != (len(cross), ncomp) or ic.shape != ig.shape:
         out.bad(sub + "/interpolate_grid/result-shape", "interpolate_grid %s, __call__ %s for %d points" % (ig.shape, ic.shape, len(cross)))
     else:
-        full_scale = np.concatenate([arb_scale, scale[na:]])
         D = np.abs(ig - ic) / full_scale[None, :]
-        info["err_igrid_vs_call"] = float(np.max(D)) / model.cond
+        info["err_igrid_vs_call"] = float(np.max(D))
         fb = _first_bad(D, 1e-13)
         if fb:
             out.bad(sub + "/interpolate_grid/differs-from-call", "grid %s: point %s component %d: interpolate_grid %.15g __call__ %.15g" % (
                 gc, cross[fb[0]], fb[1], ig[fb], ic[fb]))
-        truthC = model.values(cross)
-        Es = np.abs(ig[:, na:] - truthC[:, na:]) / scale[None, na:]
-        fb = _first_bad(Es, tol)
-        if fb:
-            cols = sorted(set(na + int(c) for r, c in np.argwhere(~(Es <= tol))))
-            out.bad(sub + "/interpolate_grid/space-function-not-interpolated-exactly/" + _cause_names(model, cols),
-                    "point %s component %d (%s): %.15g function %.15g (d=%d lmin=%d lmax=%d boundary=%s)" % (
-                        cross[fb[0]], na + fb[1], model.names[na + fb[1]], ig[fb[0], na + fb[1]], truthC[fb[0], na + fb[1]], dim, lmin, lmax, model.boundary))
-        if sgiR is not None:
-            Eo = np.abs(ig[:, :na] - sgiR[len(R):]) / arb_scale[None, :]
-            fb = _first_bad(Eo, tol)
-            if fb:
-                cols = sorted(set(int(c) for r, c in np.argwhere(~(Eo <= tol))))
-                out.bad(sub + "/interpolate_grid/differs-from-sparse-grid-interpolant/" + _cause_names(model, cols),
-                        "point %s component %d (%s): %.15g sparse-grid interpolant %.15g" % (cross[fb[0]], fb[1], model.names[fb[1]], ig[fb], sgiR[len(R) + fb[0], fb[1]]))
+
+        def expectation(zero_if=None):
+            """expected values (NaN = not determined by the oracle) of __call__(P) and interpolate_grid(cross); with
+            zero_if: for the integrand whose values at the points x with zero_if(x) are replaced by 0"""
+            expP = np.full((len(P), ncomp), np.nan)
+            expC = np.full((len(cross), ncomp), np.nan)
+            if zero_if is None:
+                expP[:nS, :na] = truthP[:nS, :na]                       # arbitrary functions at every sparse-grid point
+                expP[:, na:] = truthP[:, na:]                           # space functions everywhere
+                expC[:, na:] = truthC[:, na:]
+                if sgi_off is not None:                                 # arbitrary functions: sparse-grid interpolant
+                    expP[nS:, :na] = sgi_off[:len(R), :na]
+                    expC[:, :na] = sgi_off[len(R):, :na]
+            else:
+                keep = np.array([0.0 if zero_if(p) else 1.0 for p in P[:nS]])
+                expP[:nS, :] = truthP[:nS, :] * keep[:, None]
+                if sgi_ok:
+                    so, _ = model.sparse_grid_interpolant(off, zero_if=zero_if, all_components=True)
+                    expP[nS:, :] = so[:len(R)]
+                    expC[:, :] = so[len(R):]
+            return expP, expC
+
+        def compare(expP, expC):
+            found = []
+            EP = np.abs(vals - expP) / full_scale[None, :]
+            EC = np.abs(ig - expC) / full_scale[None, :]
+            regions = [
+                ("call/arbitrary-function-not-reproduced-at-sparse-grid-point", EP[:nS, :na], P[:nS], 0, "err_gridpoints"),
+                ("call/space-function-not-interpolated-exactly", EP[:, na:], P, na, "err_space_interp"),
+                ("call/differs-from-sparse-grid-interpolant", EP[nS:, :na], R, 0, "err_sgi"),
+                ("interpolate_grid/space-function-not-interpolated-exactly", EC[:, na:], cross, na, "err_igrid_space"),
+                ("interpolate_grid/differs-from-sparse-grid-interpolant", EC[:, :na], cross, 0, "err_igrid_sgi"),
+            ]
+            errs = {}
+            for name, E, where, c0, key in regions:
+                known = ~np.isnan(E)
+                if E.size and np.any(known):
+                    errs[key] = float(np.max(E[known])) / model.cond
+                badm = known & ~(E <= tol)
+                if np.any(badm):
+                    r, c = (int(v) for v in np.argwhere(badm)[0])
+                    cols = sorted(set(c0 + int(cc) for rr, cc in np.argwhere(badm)))
+                    rows = len(set(int(rr) for rr, cc in np.argwhere(badm)))
+                    found.append((name, _cause_names(model, cols), "%d of %d points; e.g. point %s component %d (%s): relative deviation %.3e" % (
+                        rows, len(where), where[r], c0 + c, model.names[c0 + c], E[r, c])))
+            return found, errs
+
+        found, errs = compare(*expectation())
+        if found and not model.boundary:
+            # cause analysis: does the output equal the oracle applied to the integrand with the values at *interior*
+            # points within numpy.isclose's default tolerance (1e-8 + 1e-5*|a_d|) of a face replaced by 0 ?
+            def near_face(x):
+                return any(abs(x[d] - a[d]) <= 1e-8 + 1e-5 * abs(a[d]) or abs(x[d] - b[d]) <= 1e-8 + 1e-5 * abs(b[d]) for d in range(dim))
+            nz = sum(1 for p in P[:nS] if near_face(p))
+            if nz:
+                found_m, _ = compare(*expectation(near_face))
+                if not found_m:
+                    found = [("interpolation", "interior-grid-points-within-np.isclose-default-tolerance-of-a-face-are-zeroed",
+                              "%d of %d sparse-grid points lie within 1e-8+1e-5*|a_d| of a face although they are interior points; __call__ and "
+                              "interpolate_grid return exactly the interpolant of the function with these values replaced by 0%s. First deviation: %s" % (
+                                  nz, nS, "" if sgi_ok else " (compared at the sparse-grid points only)", found[0][2]))]
+        for name, cause, msg in found:
+            out.bad("%s/%s/%s" % (sub, name, cause), "%s  (d=%d lmin=%d lmax=%d boundary=%s a=%s b=%s)" % (msg, dim, lmin, lmax, model.boundary, a, b))
+        if not found:
+            info.update(errs)       # rounding maxima are reported for cases that satisfy the clauses only
 
     deep = model.deep_function_present()
     out.nontrivial = bool(dim >= 2 and lmax > lmin and deep)
@@ -496,6 +524,8 @@ def run_combi(case, corrupt=None):
         out.cls("deep-function-carried")
     if case.get("boxclass"):
         out.cls("box=%s" % case["boxclass"])
+    if case.get("warmup"):
+        out.cls("objects-reused-after-another-scheme")
     info["max_distinct_evaluations"] = model.calls
     info["max_dim"] = dim
     info["max_lmax"] = lmax
@@ -590,6 +620,7 @@ def combi_strategy(tier):
                     op=draw(st.sampled_from(["Integration", "Integration", "Interpolation"])),
                     integrator=draw(st.sampled_from(["default"] * 5 + ["old"])),
                     order=draw(st.permutations(list(range(len(BLOCKS))))),
+                    warmup=draw(st.sampled_from([None, None, [1, 1], [1, 2], [2, 3]])),
                     nbasis=8, rng=draw(st.integers(0, 10 ** 6)))
     return s()
 
@@ -620,7 +651,7 @@ def combi_fixed():
             res.append(dict(dim=dim, lmin=lmin, lmax=lmax, boundary=boundary, a=[0.0] * dim, b=[1.0] * dim, boxclass="unit",
                             op="Integration", integrator="default", order=[0, 1, 2, 3, 4], nbasis=8, rng=17 + dim))
             res.append(dict(dim=dim, lmin=lmin, lmax=lmax, boundary=boundary, a=[-3.0, 0.3, 2.0][:dim], b=[math.pi, 1.0, 2.5][:dim],
-                            boxclass="generic", op="Interpolation", integrator="default", order=[2, 3, 1, 4, 0], nbasis=8, rng=5 + dim))
+                            boxclass="generic", op="Interpolation", integrator="default", order=[2, 3, 1, 4, 0], warmup=[1, 2], nbasis=8, rng=5 + dim))
     return res
 
 
